@@ -105,9 +105,10 @@ CHECKS = {
              'its three helper lambdas and select<N>; loop-free) are lowered per run and checked for EVERY opcode 0..255 and every pair of stored operand '
              'words against a table written from the DWARF 4 standard and the GNU extension descriptions (not from the code): which operand is a '
              'constant, a DIE, a block, a nested expression or absent; constants carry exactly the stored word, signed for SLEB/fixed-signed '
-             'encodings, hexadecimal domain for addresses and decimal otherwise. Counterexamples are replayed on the real dwop_number.',
+             'encodings, hexadecimal domain for addresses and decimal otherwise. Counterexamples are replayed on the real dwop_number. '
+             'Bounded: ?OP_x on an element of <= 4 operations holds iff some operation has that opcode (pred_op_loclist_elem/op of builtin-dw.cc).',
         design_ref='DESIGN.md section 4 C17',
-        note='SLICE: location-list iteration (address ranges, elem/relem/length), offsets and opcodes of operations, ?OP_x and all abbreviation words are not '
+        note='SLICE: location-list iteration (address ranges, elem/relem/length), offsets and opcodes of operations and all abbreviation words are not '
              'covered. DWARF 5, unassigned and other vendor opcodes unconstrained. Trusted: cxx2c lowering; models of constant/value_cst/producers and of the '
              'dwarf_getlocation_* calls; the hand-written operand table.',
         technique='CBMC on C lowered from the real C++ per run: loop-free function over the full input domain against an independent table',
